@@ -1,3 +1,4 @@
+import numpy
 from sklearn.base import BaseEstimator, RegressorMixin, ClassifierMixin, clone
 from sklearn.exceptions import NotFittedError
 from sklearn.linear_model import LinearRegression, LogisticRegression
@@ -211,7 +212,9 @@ class TransformedTargetClassifier2(BaseEstimator, ClassifierMixin):
         self._check_is_fitted()
         inv = self.transformer_.get_fct_inv()
         _, pred_inv = inv.transform(None, self.classifier_.classes_)
-        return pred_inv
+        # the columns of predict_proba and decision_function are moved
+        # to the rank of their original label
+        return numpy.sort(pred_inv)
 
     def _apply(self, X, method):
         """
